@@ -24,8 +24,8 @@ TRUSTED = [
 ]
 
 
-LEAN_TARGETS = ["QuriVerif.Props.C01", "QuriVerif.Props.Reflect", "QuriVerif.Props.ReflectLift", "QuriVerif.Props.C01Lift", "QuriVerif.Props.C01Pass", "QuriVerif.Props.C01Pipeline"]
-REFLECT = ["QuriVerif.Props.Reflect", "QuriVerif.Props.ReflectLift", "QuriVerif.Props.C01Lift", "QuriVerif.Props.C01Pass", "QuriVerif.Props.C01Pipeline"]
+LEAN_TARGETS = ["QuriVerif.Props.C01", "QuriVerif.Props.Reflect", "QuriVerif.Props.ReflectLift", "QuriVerif.Props.C01Lift", "QuriVerif.Props.C01Pass", "QuriVerif.Props.C01Pipeline", "QuriVerif.Props.C01Bind"]
+REFLECT = ["QuriVerif.Props.Reflect", "QuriVerif.Props.ReflectLift", "QuriVerif.Props.C01Lift", "QuriVerif.Props.C01Pass", "QuriVerif.Props.C01Pipeline", "QuriVerif.Props.C01Bind"]
 LEAN_TARGETS_THOROUGH = ["QuriVerif.Props.C01Deep"]
 
 
@@ -1958,6 +1958,21 @@ def run(ctx: Ctx, replay=None) -> int:
     ok = ctx.prove(["QuriVerif.Props.C01"] + REFLECT + ["QuriVerif.Driver.All"] + deep,
                    ["QuriVerif.Props.C01"] + REFLECT + ["QuriVerif.Generated.C01Templates", "QuriVerif.Generated.C01Ladders",
                     "QuriVerif.Generated.C01Tables"] + deep)
+    if ok and not ctx.quick():
+        # one environment for the whole proof library: every Proof/*.lean file and every Lift file that does not import another
+        # property's generated tables is imported together (name clashes between independently written proof files would make
+        # the lifts un-combinable); an infrastructure fault, never a verdict about /repo
+        import glob as _glob
+        mods = sorted("QuriVerif.Proof." + os.path.basename(f)[:-5] for f in _glob.glob(os.path.join(os.path.dirname(os.path.dirname(os.path.abspath(__file__))), "lean", "QuriVerif", "Proof", "*.lean")))
+        mods += ["QuriVerif.Props.C07Lift", "QuriVerif.Props.C08Lift", "QuriVerif.Props.C13Lift", "QuriVerif.Props.C15Lift",
+                 "QuriVerif.Props.C16Lift", "QuriVerif.Props.C01Pipeline"]
+        mods = [m for m in mods if not any(x.startswith("QuriVerif.Generated.") and not x.startswith("QuriVerif.Generated.C01")
+                                           for x in ctx.import_closure([m]))]  # keep C01 independent of other properties' tables
+        ctx.write_generated("AllProofs", "-- GENERATED by harness/c01.py: joint import of the proof library\n" + "\n".join("import " + m for m in mods) + "\n")
+        ok_all, out_all = ctx.lake_build(["QuriVerif.Generated.AllProofs"])
+        ctx.extra["joint_import_modules"] = len(mods)
+        if not ok_all:
+            raise InfraError("joint import of the proof library fails: " + out_all[-600:])
     if ok:
         names = [f"QV.Props.C01.{n}" for _, n, _ in ctx.count_obligations(["QuriVerif.Props.C01"])]
         private = {"hh_exact", "rxT_exact", "rxT_nz", "cnotT_check", "cnotT_nz", "u3T_check", "u3T_nz", "toffoliT_check", "toffoliT_nz"}
@@ -1965,7 +1980,8 @@ def run(ctx: Ctx, replay=None) -> int:
         names += [f"QV.Props.C01Lift.{n}" for _, n, _ in ctx.count_obligations(REFLECT[2:3])]
         names += [f"QV.Props.C01Pass.{n}" for _, n, _ in ctx.count_obligations(REFLECT[3:4]) if n != "circ3_ok"]
         priv = {"circ_inv", "pipe_runs", "pipe_len", "circ2_inv", "pipe2_runs", "pipe2_kinds", "circ3_inv", "pipe3_runs", "pipe3_len", "circ4_inv", "pipe4_runs", "circ5_inv", "gsA_runs", "gsB_runs", "gsA_len", "gsB_len"}
-        names += [f"QV.Props.C01Pipeline.{n}" for _, n, _ in ctx.count_obligations(REFLECT[4:]) if n not in priv]
+        names += [f"QV.Props.C01Pipeline.{n}" for _, n, _ in ctx.count_obligations(REFLECT[4:5]) if n not in priv]
+        names += [f"QV.Props.C01Bind.{n}" for _, n, _ in ctx.count_obligations(REFLECT[5:6])]
         ctx.audit(names, ["QuriVerif.Props.C01"] + REFLECT)
         with ctx.timed("correspond"):
             check_factories(ctx)
